@@ -91,7 +91,7 @@ def make_config(fd, rng, tier, model=None, grid_kind=None, solvable=False, n_ext
     pnames = S.SURVIVAL[model][0]
     shape = tuple(dims.shape)
     cfg = dict(items=items, gclass=gclass, tl=tl, dims=dims, extra=extra_letters, model=model, shape=shape, U=U, tdim=tdim, layout=["C", "C", "F", "time-last"][(len(items) + len(model)) % 4],
-               inflow_at=str(rng.choice(["start", "middle", "end"])), n_pts=int(rng.choice([1, 1, 1, 2, 3, 4, 5, 6, 7, 8, 9, 10])) if len(items) <= 60 else int(rng.choice([1, 2])))
+               settings_late=bool((len(items) + len(model)) % 3 == 0), inflow_at=str(rng.choice(["start", "middle", "end"])), n_pts=int(rng.choice([1, 1, 1, 2, 3, 4, 5, 6, 7, 8, 9, 10])) if len(items) <= 60 else int(rng.choice([1, 2])))
     # ground-truth parameter values per (cohort, labels)
     lo = max(0.6 * float(dtv.min()), 0.3) if solvable else 0.3 * float(dtv.min())
     truth, given = {}, {}
@@ -178,9 +178,17 @@ def build_lm(fd, cfg, dims=None, late=None):
             kw[pn] = float(np.asarray(vals))
         else:
             kw[pn] = fd.FlodymArray(dims=fd.DimensionSet(dim_list=list(pdims)), values=np.array(vals, dtype=float))
+    if len(cfg["items"]) % 2 == 0:
+        kw = dict(reversed(list(kw.items())))  # keyword arguments in the other order (std before mean, scale before shape)
     if late is not None:
         late.append(kw)
         kw = {}
+    if cfg.get("settings_late"):
+        # the settings are attributes of the model: given after construction (the only way for models that stocks build from a class)
+        lm = cls(dims=dims if dims is not None else cfg["dims"], time_letter=cfg["tl"], **kw)
+        lm.n_pts_per_interval = cfg["n_pts"]
+        lm.inflow_at = cfg["inflow_at"]
+        return lm
     return cls(dims=dims if dims is not None else cfg["dims"], time_letter=cfg["tl"], inflow_at=cfg["inflow_at"], n_pts_per_interval=cfg["n_pts"], **kw)
 
 
@@ -611,11 +619,24 @@ def c17_case(rec, hub, rng, tier, which):
                     pn0 = list(cfg["truth"].keys())
                     attempts += [lambda: live.lifetime_model.set_prms(**{k_: fd.FlodymArray(dims=fd.DimensionSet(dim_list=[bad_dim]), values=np.array([1.0, 2.0])) for k_ in pn0}),
                                  lambda: live.lifetime_model.set_prms(), lambda: type(live)(dims=live.dims, lifetime_model=live.lifetime_model, time_letter="zz")]
+                if lm is not None and len(cfg["truth"]) >= 2:
+                    # a re-parameterisation of which only the LAST argument is unusable (an array over a foreign dimension / a value
+                    # the model may refuse): the first ones are fine and new
+                    good_new = {k_: np.array(v_) * 1.3 for k_, v_ in list(told.items())[:-1]}
+                    last_k = list(told.keys())[-1]
+                    for bad_last in (fd.FlodymArray(dims=fd.DimensionSet(dim_list=[bad_dim]), values=np.array([1.0, 2.0])), "three years"):
+                        attempts.append(lambda bl=bad_last: live.lifetime_model.set_prms(**good_new, **{last_k: bl}))
                 for a_ in attempts:
                     try:
                         a_()
                     except Exception:
                         pass
+                if lm is not None:
+                    # whatever a refused (or accepted) call left in the model is what it HOLDS now; results must follow that
+                    held = S.lm_state(live.lifetime_model)["prms"]
+                    if all(v_ is not None for v_ in held.values()) and any(not np.array_equal(np.asarray(held[k_], dtype=float), told[k_]) for k_ in told):
+                        told = {k_: np.array(held[k_], dtype=float) for k_ in told}
+                        hist[-1] = "error(a refused set_prms left other parameters in the model)"
                 if lm is not None and rng.random() < 0.6:
                     # a setting the table builder refuses, noticed by a failing read or compute and corrected by the user
                     good = live.lifetime_model.n_pts_per_interval
